@@ -5,6 +5,7 @@ import (
 	"flag"
 	"fmt"
 	"os"
+	"runtime"
 	"sort"
 	"strings"
 	"testing"
@@ -158,6 +159,7 @@ type engine struct {
 }
 
 func hasSig(res *Result, sig string) bool {
+	defer res.Release()
 	if res.HarnessErr != "" {
 		return false
 	}
@@ -190,6 +192,7 @@ type WorkerOut struct {
 	HarnessErr  string            `json:"harness_error,omitempty"`
 	DetChecks   int               `json:"determinism_rechecks"`
 	DetMismatch int               `json:"determinism_mismatches"`
+	Goroutines  int               `json:"goroutines_left_at_end"`
 	NextBatch   int               `json:"next_batch"`
 	Hashes      []string          `json:"-"`
 	StateHashes int               `json:"distinct_final_states"`
@@ -503,6 +506,14 @@ func runEngine(t *testing.T, eng *engine) {
 	}
 	shrinkSig := ""
 	for time.Now().Before(deadline) && out.Runs < *fMaxRuns && fail.in == nil {
+		// Goroutines left behind by simulated process deaths (DESIGN 2.2) pin the memory of their
+		// run: the worker ends when its heap has grown and the driver starts a fresh one.
+		var ms runtime.MemStats
+		runtime.ReadMemStats(&ms)
+		if ms.HeapInuse > 400<<20 {
+			out.Counters["worker.recycled-for-memory"]++
+			break
+		}
 		rseed := deriveSeed(*fSeed, *fWorker, batch, 0)
 		_ = flag.Set("rapid.seed", fmt.Sprint(rseed))
 		tb := &recTB{}
@@ -510,6 +521,9 @@ func runEngine(t *testing.T, eng *engine) {
 		b := batch
 		rapid.Check(tb, func(rt *rapid.T) {
 			in := eng.gen(rt, b)
+			if shrinkSig == "" && time.Now().After(deadline) {
+				return // budget used up in the middle of a batch: let the batch end at once
+			}
 			res := eng.run(t, in, false)
 			if res.HarnessErr != "" {
 				harnessExit(out, res.HarnessErr, in)
@@ -536,6 +550,7 @@ func runEngine(t *testing.T, eng *engine) {
 				// continuous determinism re-check on a sample of runs
 				if out.Runs%64 == 1 {
 					again := eng.run(t, in, false)
+					defer again.Release()
 					out.DetChecks++
 					if again.Digest != res.Digest {
 						// reported by the driver: exit 2 unless an exactly reproducible violation is found
@@ -564,9 +579,11 @@ func runEngine(t *testing.T, eng *engine) {
 				}
 				if v.Sig() == shrinkSig {
 					fail.in, fail.v, fail.seed = in, v, rseed
+					res.Release()
 					rt.Fatalf("%s", v.Sig())
 				}
 			}
+			res.Release()
 		})
 		if !tb.failed {
 			fail.in = nil
@@ -578,6 +595,7 @@ func runEngine(t *testing.T, eng *engine) {
 	out.NextBatch = batch
 	out.WallS = time.Since(start).Seconds()
 	out.StateHashes = len(states)
+	out.Goroutines = runtime.NumGoroutine()
 	if fail.in != nil {
 		if eng.shrink != nil {
 			small, n := eng.shrink(t, fail.in, fail.v.Sig())
